@@ -415,7 +415,7 @@ def gen_triples(rng, types, tier, n, pick=None):
         t = parse_type(name)
         if tier == "thorough":
             vals = enum_values(t, 24)
-            if vals is not None and len(vals) ** 3 <= 14000:
+            if vals is not None and len(vals) ** 3 <= 1800:
                 for a in vals:
                     for b in vals:
                         for c in vals:
